@@ -152,6 +152,33 @@ class Facts:
     def variants(self, adt_path):
         return [v["name"] for v in self.adts[adt_path]["variants"]]
 
+    def fn(self, name, file=None, container=None, allow_many=False):
+        """Resolve a function by (method name, source file suffix, substring of its impl/trait
+        container). Exactly one match is required unless allow_many."""
+        out = []
+        for p, f in self.fns.items():
+            if f.get("name") != name or f.get("kind") == "Closure":
+                continue
+            if file is not None and not f["span"].split(":")[0].endswith(file):
+                continue
+            if container is not None:
+                c = f.get("container") or ""
+                if isinstance(container, (list, tuple)):
+                    if not all(x in c for x in container):
+                        continue
+                elif container not in c:
+                    continue
+            out.append(p)
+        if allow_many:
+            return sorted(out)
+        if len(out) != 1:
+            raise KeyError("function %s (file=%s, container=%s): %d matches %s"
+                           % (name, file, container, len(out), out[:4]))
+        return out[0]
+
+    def closures_of(self, path):
+        return sorted(p for p in self.bodies if p.startswith(path + "::{closure"))
+
     def find_fns(self, pred):
         return [p for p in self.fns if pred(p)]
 
